@@ -245,13 +245,17 @@ def run(ctx: Ctx) -> None:
     finally:
         drv.close()
     ctx.partial += [
-        "provenance (a token kind appears only if one of its producing rules is enabled) is PROVED for the modelled sub-parser "
-        "(Props/C10b.lean mini_provenance, mini_no_hr, mini_no_code, mini_zero: code/fence/hr/heading/paragraph under all 16 "
-        "subsets; model tied by the `miniblock` differential runs) and with block quotes nested to any depth (Props/C10c.lean "
-        "q_provenance, q_no_hr; tie `qblock`) and with lists as well (Props/C10d.lean l_provenance, l_no_hr, l_no_fence; tie "
-        "`lblock`); for the other rules and for the conservative-extension "
-        "clause (the table rule declines without a pipe) it needs per-rule models and is decided by the oracle; the dispatch "
-        "part — a disabled rule is in no chain — is a theorem",
+        "provenance (a token kind appears only if one of its producing rules is enabled) is PROVED for the modelled block chains up to "
+        "ten of eleven rules incl. `table` (`reference` off: its K3 bound is not proved) — Props/C10b-d,f,n: mini/q/l/m/t_provenance, "
+        "t_no_table — and end to end with the inline rules (Props/C10g, C10o: full_provenance, fullT_provenance); for the eleven-rule chain "
+        "with `reference` on it rests on the ties (`fullparser`, `fullparset`) and the oracle",
+        "conservative extension: PROVED for the inline side (Props/C10h-k: any two configurations of the ten switchable inline rules; "
+        "strikethrough without `~~`); for tables, PROVED: on a source without `|` the table rule, switched on, produces no table token at "
+        "any depth (Props/C10q-r: t_pipe_free_no_table, fullT_pipe_free_no_table) and a declining rule leaves the state untouched "
+        "(Props/C10m); NOT PROVED: that the rest of the stream is then identical with the rule off (needs a relation between two runs "
+        "through the block loop and both containers) — decided by the oracle (generator documents and the bounded-exhaustive near-table "
+        "family, table on vs off under both presets) and by the `fullparset` tie with the rule on and off",
+        "inline_definitions / store_labels: store_labels PROVED on the model (Props/C10l full_meta); inline_definitions by the oracle",
     ]
 
 
